@@ -927,4 +927,135 @@ Lemma drained_suffix st H1 H2 : drained st (H1 ++ H2) -> drained (fst (lrun st H
 Proof.
   intros [D1 D2]. split; [intros s t Hs; apply (D1 s t); rewrite lstates_app; apply in_or_app; right; exact Hs|rewrite lrun_app_fst in D2; exact D2].
 Qed.
+
+(* ================================================================== Part 5: the loop theorems *)
+Lemma disp_of_in tr s o x : In (s, o, x) (disp_of tr) <-> exists u, In (u, EDisp s o x) tr.
+Proof.
+  unfold disp_of. rewrite in_flat_map. split.
+  - intros ([u e] & Hin & He). cbn [snd] in He. destruct e; try (destruct He; fail). destruct He as [He|[]]. inversion He; subst. exists u. exact Hin.
+  - intros (u & Hin). exists (u, EDisp s o x). split; [exact Hin|left; reflexivity].
+Qed.
+
+Lemma lstates_now : forall H st s o, lmono (l_now st) H -> In (s, o) (lstates st H) -> l_now st <= l_now s <= l_now (fst (lrun st H)).
+Proof.
+  intros H st s o Hm Hin. destruct (lstates_split _ _ _ _ Hin) as (H1 & H2 & -> & ->). destruct (lmono_app _ _ _ Hm) as [M1 M2].
+  rewrite lrun_app_fst. pose proof (lrun_now_le _ _ M1). pose proof (lrun_now_le _ _ M2). lia.
+Qed.
+
+(* a step taken at a later clock reading comes later in the history *)
+Lemma lstates_later H st s1 o1 s2 o2 : lmono (l_now st) H -> In (s1, o1) (lstates st H) -> In (s2, o2) (lstates st H) -> l_now s1 < l_now s2 ->
+  exists H1 H2 H3, H = H1 ++ o1 :: H2 ++ o2 :: H3 /\ s1 = fst (lrun st H1) /\ s2 = fst (lrun (fst (lrun st (H1 ++ [o1]))) H2).
+Proof.
+  intros Hm Hin1 Hin2 Hlt. destruct (lstates_split _ _ _ _ Hin1) as (H1 & Hr & -> & E1). destruct (lmono_app _ _ _ Hm) as [M1 M2].
+  rewrite lstates_app in Hin2. apply in_app_or in Hin2 as [Hin2|Hin2].
+  - pose proof (lstates_now _ _ _ _ M1 Hin2) as X. rewrite <- E1 in X. lia.
+  - cbn [ReobsLoop.lstates] in Hin2. rewrite <- E1 in Hin2. destruct Hin2 as [X|Hin2]; [inversion X; subst; lia|].
+    destruct (lstates_split _ _ _ _ Hin2) as (H2 & H3 & -> & E2). exists H1, H2, H3. split; [reflexivity|]. split; [exact E1|].
+    rewrite E2. rewrite lrun_app_fst. rewrite E1. cbn [ReobsLoop.lrun]. destruct (lstep (fst (lrun st H1)) o1); reflexivity.
+Qed.
+
+Definition req_of (c : Z) (tx : bytes) : R.req := {| R.r_chain := c; R.r_tx := tx |}.
+Definition key_of_msg (c : Z) (tx : bytes) : R.rkey := (c mod 65536, tx).
+
+(* (a) CADENCE, upper bound.  From any state of the composition reached with its invariant (the initial state is one), over any
+   continuation H with monotone clock readings, for any instant t not before the start: if
+     - the message of digest h (emitter chain c, transaction tx) is pending at every cleanup tick in (t, t + B],
+     - a purge tick falls in (t + 11 min, t + 18 min] and cleanup ticks come at most 30 s apart in the stretch that matters,
+     - p2p's request goroutine keeps up (drained) and neither obsvReqSendC nor the watcher queue of chain c overflows,
+   then the watcher of chain c receives a re-observation request for tx at some instant in (t, t + B], B = 23 min 30 s. *)
+Theorem loop_forward_within H st0 h c tx t :
+  LInv st0 -> RP.cache_wf (l_disp st0) -> RP.known (l_disp st0) (c mod 65536) ->
+  (forall t', In (key_of_msg c tx, t') (R.cache (l_disp st0)) -> t' <= t) ->
+  lmono (l_now st0) H -> l_now st0 <= t ->
+  (forall s, In (s, LCleanup) (lstates st0 H) -> t < l_now s <= t + loop_bound -> pending_at s h c tx) ->
+  (exists s, In (s, LPurge) (lstates st0 H) /\ t + reobs_window < l_now s <= t + reobs_window + reobs_period) ->
+  (forall a, t + reobs_window < a <= t + reobs_window + reobs_period + proc_retry_ns ->
+     exists s, In (s, LCleanup) (lstates st0 H) /\ a < l_now s <= a + proc_tick_ns) ->
+  drained st0 H ->
+  (forall u r, ~ In (u, EPost r R.PostErrChanFull) (snd (lrun st0 H))) ->
+  (forall u s r f, R.key_of r = key_of_msg c tx -> ~ In (u, EDisp s (R.Req r f) R.DropFull) (snd (lrun st0 H))) ->
+  exists u s r f x, In (u, EDisp s (R.Req r f) (R.Forward x)) (snd (lrun st0 H)) /\ R.key_of r = key_of_msg c tx /\ t < f <= t + loop_bound.
+Proof.
+  intros HI W K Hold Hm Hstart Hpend (sp & Hsp & Htau) Hticks Hdr Hroom Hqroom.
+  pose proof RP.window_pos as Wpos. assert (Ppos : 0 < reobs_period) by reflexivity. assert (Rpos : 0 < proc_retry_ns) by reflexivity. assert (Tpos : 0 < proc_tick_ns) by reflexivity.
+  (* the purge step *)
+  destruct (lstates_split _ _ _ _ Hsp) as (H1 & Hrest & EH & Esp). subst H.
+  set (st1 := fst (lrun st0 (H1 ++ [LPurge]))).
+  assert (N1 : l_now st1 = l_now sp).
+  { unfold st1. rewrite lrun_app_fst, <- Esp. cbn [ReobsLoop.lrun]. destruct (lstep sp LPurge) eqn:E. cbn [fst]. replace l with (fst (lstep sp LPurge)) by (rewrite E; reflexivity). apply lstep_now. }
+  assert (EH2 : H1 ++ LPurge :: Hrest = (H1 ++ [LPurge]) ++ Hrest) by (rewrite <- app_assoc; reflexivity).
+  rewrite EH2 in *. destruct (lmono_app _ _ _ Hm) as [M1 M2]. fold st1 in M2.
+  assert (HI1 : LInv st1) by (apply lrun_inv; assumption).
+  (* the cleanup tick at which the retry is certainly due *)
+  set (a := match alookup h (agg (l_proc st1)) with
+            | Some e => match last_retry e with Some L => Z.max (l_now sp) (L + proc_retry_ns) | None => l_now sp end
+            | None => l_now sp end).
+  assert (Ha : l_now sp <= a <= l_now sp + proc_retry_ns).
+  { unfold a. destruct (alookup h (agg (l_proc st1))) as [e|] eqn:El; [|lia]. destruct (last_retry e) as [L|] eqn:ElL; [|lia].
+    destruct HI1 as [_ LR]. specialize (LR _ _ _ El ElL). rewrite N1 in LR. lia. }
+  destruct (Hticks a) as (sT & HsT & HT); [lia|].
+  assert (HsTr : In (sT, LCleanup) (lstates st1 Hrest)).
+  { rewrite lstates_app in HsT. apply in_app_or in HsT as [X|X]; [|exact X]. pose proof (lstates_now _ _ _ _ M1 X) as Y. fold st1 in Y. lia. }
+  destruct (lstates_split _ _ _ _ HsTr) as (H2 & H3 & -> & EsT).
+  assert (M2' : lmono (l_now st1) (H2 ++ [LCleanup])).
+  { replace (H2 ++ LCleanup :: H3) with ((H2 ++ [LCleanup]) ++ H3) in M2 by (rewrite <- app_assoc; reflexivity). apply lmono_app in M2 as [X _]. exact X. }
+  (* lemma A *)
+  destruct (retry_by_due_tick h c tx H2 st1 HI1 M2') as (s' & Hs' & Hret).
+  { intros s Hs. apply Hpend.
+    - rewrite lstates_app. apply in_or_app. right. fold st1. replace (H2 ++ LCleanup :: H3) with ((H2 ++ [LCleanup]) ++ H3) by (rewrite <- app_assoc; reflexivity).
+      rewrite lstates_app. apply in_or_app. left. exact Hs.
+    - pose proof (lstates_now _ _ _ _ M2' Hs) as X. rewrite lrun_app_fst, <- EsT in X. cbn [ReobsLoop.lrun] in X.
+      assert (Y : l_now (fst (let '(st1, e1) := lstep sT LCleanup in (st1, e1 ++ []))) = l_now sT) by (pose proof (lstep_now sT LCleanup) as Z; destruct (lstep sT LCleanup); exact Z).
+      rewrite Y in X. unfold loop_bound. lia. }
+  { intros e L El ElL. rewrite <- EsT. unfold a in HT. rewrite El, ElL in HT. lia. }
+  destruct (lstates_split _ _ _ _ Hs') as (Ha' & Hb' & Eab & Es').
+  assert (Hu : l_now sp <= l_now s' <= l_now sT).
+  { pose proof (lstates_now _ _ _ _ M2' Hs') as X. rewrite lrun_app_fst, <- EsT in X. cbn [ReobsLoop.lrun] in X.
+    assert (Y : l_now (fst (let '(st1, e1) := lstep sT LCleanup in (st1, e1 ++ []))) = l_now sT) by (pose proof (lstep_now sT LCleanup) as Z; destruct (lstep sT LCleanup); exact Z).
+    rewrite Y in X. lia. }
+  assert (Ps' : pending_at s' h c tx).
+  { apply Hpend; [|unfold loop_bound; lia]. rewrite lstates_app. apply in_or_app. right. fold st1.
+    replace (H2 ++ LCleanup :: H3) with ((H2 ++ [LCleanup]) ++ H3) by (rewrite <- app_assoc; reflexivity). rewrite lstates_app. apply in_or_app. left. exact Hs'. }
+  (* the request is posted ... *)
+  destruct (lretried_spec _ _ _ _ Ps') as (e & o & _ & _ & Er & Hdue & _). rewrite Hret in Er. symmetry in Er. destruct (Hdue Er) as [Hobs _].
+  (* the whole history, cut at s' *)
+  assert (EHall : (H1 ++ [LPurge]) ++ H2 ++ LCleanup :: H3 = ((H1 ++ [LPurge]) ++ Ha') ++ LCleanup :: (Hb' ++ H3)).
+  { replace (H2 ++ LCleanup :: H3) with ((H2 ++ [LCleanup]) ++ H3) by (rewrite <- app_assoc; reflexivity). rewrite Eab. rewrite <- !app_assoc. reflexivity. }
+  assert (Es'0 : s' = fst (lrun st0 ((H1 ++ [LPurge]) ++ Ha'))) by (rewrite lrun_app_fst; exact Es').
+  set (s'' := fst (lstep s' LCleanup)).
+  assert (ND' : KeysND (l_proc s')).
+  { rewrite Es'0. apply lrun_inv; [exact HI|]. rewrite EHall in Hm. apply lmono_app in Hm as [X _]. exact X. }
+  destruct (lcleanup_effect s' ND') as (_ & _ & _ & Nn & _ & _ & Hq & _). fold s'' in Nn, Hq.
+  assert (Etr : snd (lrun st0 (((H1 ++ [LPurge]) ++ Ha') ++ LCleanup :: (Hb' ++ H3))) =
+                snd (lrun st0 ((H1 ++ [LPurge]) ++ Ha')) ++ snd (lstep s' LCleanup) ++ snd (lrun s'' (Hb' ++ H3))).
+  { rewrite lrun_app_snd, <- Es'0, lrun_cons. reflexivity. }
+  destruct (Hq (req_of c tx)) as [Hin|Hfull].
+  { apply in_flat_map. exists (ObsReq c tx). split; [exact Hobs|left; reflexivity]. }
+  2:{ exfalso. apply (Hroom (l_now s') (req_of c tx)). rewrite EHall, Etr. apply in_or_app. right. apply in_or_app. left. exact Hfull. }
+  (* ... and pumped *)
+  assert (Dr'' : drained s'' (Hb' ++ H3)).
+  { rewrite EHall in Hdr. apply drained_suffix in Hdr. rewrite <- Es'0 in Hdr. destruct Hdr as [D1 D2]. split.
+    - intros s t0 Hs. apply (D1 s t0). right. exact Hs.
+    - rewrite lrun_cons in D2. exact D2. }
+  destruct (pumped _ _ _ Hin Dr'') as (sd & x & Hx). rewrite Nn in Hx.
+  (* the dispatcher's history *)
+  set (tr := snd (lrun st0 ((H1 ++ [LPurge]) ++ H2 ++ LCleanup :: H3))) in *.
+  destruct (lrun_wf (((H1 ++ [LPurge]) ++ H2 ++ LCleanup :: H3)) st0) as [[Dw _] _]. fold tr in Dw.
+  assert (Etr2 : tr = snd (lrun st0 H1) ++ snd (lstep sp LPurge) ++ snd (lrun st1 (H2 ++ LCleanup :: H3))).
+  { unfold tr. rewrite lrun_app_snd. fold st1. rewrite lrun_app_snd, <- Esp. rewrite <- app_assoc.
+    assert (X : snd (lrun sp [LPurge]) = snd (lstep sp LPurge)) by (cbn [ReobsLoop.lrun]; destruct (lstep sp LPurge); cbn [snd]; apply app_nil_r). rewrite X. reflexivity. }
+  assert (Epurge : snd (lstep sp LPurge) = [(l_now sp, EDisp (l_disp sp) (R.Tick (l_now sp)) R.Purged)]) by (cbn [ReobsLoop.lstep]; unfold dispatch; reflexivity).
+  assert (Hxin : In (l_now s', EDisp sd (R.Req (req_of c tx) (l_now s')) x) (snd (lrun st1 (H2 ++ LCleanup :: H3)))).
+  { replace (H2 ++ LCleanup :: H3) with (Ha' ++ LCleanup :: (Hb' ++ H3)) by (replace (H2 ++ LCleanup :: H3) with ((H2 ++ [LCleanup]) ++ H3) by (rewrite <- app_assoc; reflexivity); rewrite Eab, <- app_assoc; reflexivity).
+    rewrite lrun_app_snd, <- Es', lrun_cons. apply in_or_app. right. cbn [snd]. apply in_or_app. right. exact Hx. }
+  assert (Hxd : In (sd, R.Req (req_of c tx) (l_now s'), x) (disp_of (snd (lrun st1 (H2 ++ LCleanup :: H3))))) by (apply disp_of_in; eexists; exact Hxin).
+  destruct (in_split _ _ Hxd) as (m1 & m2 & Em).
+  assert (Erun : R.run (l_disp st0) (dops tr) = disp_of (snd (lrun st0 H1)) ++ (l_disp sp, R.Tick (l_now sp), R.Purged) :: m1 ++ (sd, R.Req (req_of c tx) (l_now s'), x) :: m2).
+  { rewrite <- Dw, Etr2, !disp_of_app, Epurge, Em. reflexivity. }
+  assert (Hmono : RP.mono (l_now st0) (dops tr)) by (apply lrun_mono; exact Hm).
+  assert (Hxnf : x <> R.DropFull).
+  { intros ->. apply (Hqroom (l_now s') sd (req_of c tx) (l_now s')); [reflexivity|]. fold tr. rewrite Etr2. apply in_or_app. right. apply in_or_app. right. exact Hxin. }
+  destruct (forward_between_pos (l_disp st0) (l_now st0) (dops tr) (key_of_msg c tx) t _ _ _ _ _ _ _ _ _ Hmono W K Hold Erun) as (s & r & f & cx & Hf & Hk & Hft); [lia|reflexivity|exact Hxnf|].
+  rewrite <- Dw in Hf. apply disp_of_in in Hf as (u & Hf). exists u, s, r, f, cx. split; [exact Hf|]. split; [exact Hk|]. unfold loop_bound. lia.
+Qed.
 End Loop2.
